@@ -68,8 +68,33 @@ def colkey_dag(m, ids, extra=None):
     return key
 
 
+def premises(ctx, engine, m):
+    """The instance on which model and code are compared is machine-checked to lie inside the domain of the encoder theorems:
+    the extracted VERIFIED checkers WfCheck.premises_b (well-formed s-t graph, adjacency tables consistent with the edge list,
+    acyclic by the supplied topological order) and CheckedInstances.cons_ok_b (constraints name edges, non-negative lengths)
+    are evaluated on the very tokens the encoder receives (theorems *_checked in CheckedInstances.v)."""
+    import networkx as nx
+    st = m.G; ids = ids_of(st)
+    try:
+        order = list(nx.topological_sort(st))
+    except Exception:
+        order = list(st.nodes())
+    t = path_inst_tokens(m, ids) + [len(order), [ids[v] for v in order]]
+    out = ctx.model.run(["premises " + common.toks(t)])[0].split()
+    ctx.count(engine, "premises_checked")
+    if out != ["1", "1"]:
+        ctx.count(engine, "premises_failed")
+        ctx.report(f"{engine}: the instance handed to the encoder is outside the premises of the encoder theorems "
+                   f"(well-formed acyclic s-t graph: {out[0] if out else '?'}, constraints on edges with non-negative lengths: {out[1] if len(out) > 1 else '?'})",
+                   {"engine": engine, "nodes": [str(v) for v in st.nodes()], "edges": [[str(u), str(v)] for u, v in st.edges()]}, concrete=False)
+
+
 def compare(ctx, engine, name, m, impl, req, args, what=("cols", "rows", "obj", "sense")):
     """returns the diff list; bookkeeping on ctx"""
+    try:
+        premises(ctx, engine, m)
+    except Exception as e:
+        ctx.report(f"{engine}: premises check crashed: {e!r}", {"engine": engine}, concrete=False)
     out = ctx.model.run([req], multiline=True)[0]
     model = lpdump.parse_model(out)
     d = lpdump.diff(impl, model, what=what)
